@@ -188,7 +188,7 @@ def map_shape_preserving(ctx, rule: str):
     ok_t = len(tup) == 1 and sym.pm(f"tuple((apply_func(VAR_e, {c_} + (VAR_i,)) for VAR_i, VAR_e in enumerate({o_})))", tup[0][1]) is not None
     ctx.check(ok_t, rule, "_map maps tuples to tuples of the same length, element-wise and recursively", af.where, ctx.construct(af, text="tuple → tuple"),
               f"the tuple case of apply_func must be tuple(apply_func(o, {c_} + (i,)) for i, o in enumerate({o_})); found {[norm(v)[:120] for _, v, _e in tup]}")
-    st = sym.eval_under(outs, {S: True, "recurse": True, "except_TypeError": False}, kinds=("return",))
+    st = sym.eval_under(outs, {S: True, T: False, "recurse": True, "except_TypeError": False}, kinds=("return",))   # a value is a Structured or a tuple, never both
     ok_s = len(st) == 1 and sym.pm(f"{o_}._map(func, recurse=True, as_type=as_type, _context={c_})", st[0][1]) is not None
     ctx.check(ok_s, rule, "_map recurses into nested structures with the same as_type", af.where, ctx.construct(af, text="nested → same as_type"),
               f"nested Structured values must be mapped with the same function and as_type; found {[norm(v)[:120] for _, v, _e in st]}")
